@@ -242,12 +242,24 @@ fn endian_of(enc: Enc) -> AnyEndian {
 }
 
 fn via_new(m: &VerModel, s: &Sections, enc: Enc) -> Result<Option<Answers>, String> {
+    via_new_at(m, s, enc, 0)
+}
+
+/// The record iterators take the offset of the first record inside their bytes: `k` garbage bytes
+/// are put in front of both record sections and the iterators are told to start at `k`.
+fn via_new_at(m: &VerModel, s: &Sections, enc: Enc, k: usize) -> Result<Option<Answers>, String> {
     let e = endian_of(enc);
     let c = class_of(enc);
+    let displaced = |b: &[u8]| -> Vec<u8> {
+        let mut v: Vec<u8> = (0..k).map(|i| 0xE1u8.wrapping_add((i as u8).wrapping_mul(7))).collect();
+        v.extend_from_slice(b);
+        v
+    };
+    let (vn, vd) = (displaced(&s.verneed), displaced(&s.verdef));
     subject(|| {
         let ids = VersionIndexTable::new(e, c, &s.versym);
-        let needs = if m.needs.is_empty() { None } else { Some((VerNeedIterator::new(e, c, m.needs.len() as u64, 0, &s.verneed), StringTable::new(&s.need_strs))) };
-        let defs = if m.defs.is_empty() { None } else { Some((VerDefIterator::new(e, c, m.defs.len() as u64, 0, &s.verdef), StringTable::new(&s.def_strs))) };
+        let needs = if m.needs.is_empty() { None } else { Some((VerNeedIterator::new(e, c, m.needs.len() as u64, k, &vn), StringTable::new(&s.need_strs))) };
+        let defs = if m.defs.is_empty() { None } else { Some((VerDefIterator::new(e, c, m.defs.len() as u64, k, &vd), StringTable::new(&s.def_strs))) };
         let t = SymbolVersionTable::new(ids, needs, defs);
         Some(query(&t, m.versym.len()))
     })
@@ -506,6 +518,36 @@ impl Space for Padded {
     }
 }
 
+/// Record iterators started at a non-zero offset inside their bytes.
+struct Displaced;
+const DISP_K: [usize; 8] = [1, 2, 4, 16, 20, 28, 33, 4096];
+impl Space for Displaced {
+    fn name(&self) -> String {
+        "VerNeedIterator / VerDefIterator constructed with starting_offset k over bytes that carry k garbage bytes in front of the records, k in {1,2,4,16,20,28,33,4096}: 2 needed files x {1,2} aux, 2 definitions x {1,3} names, 4 index assignments x 5 layouts x 4 encodings; every symbol's requirement and definition".into()
+    }
+    fn size(&self) -> u64 {
+        8 * 5 * 4 * 4
+    }
+    fn describe(&self, idx: u64) -> Value {
+        let d = unmix(idx, &[8, 5, 4, 4]);
+        json!({"starting_offset": DISP_K[d[0] as usize], "layout": format!("{:?}", LAYOUTS[d[1] as usize]), "encoding": ENCS[d[2] as usize].name(), "index_assignment": d[3]})
+    }
+    fn run(&self, idx: u64, out: &mut Outcome) {
+        let d = unmix(idx, &[8, 5, 4, 4]);
+        let k = DISP_K[d[0] as usize];
+        let lay = LAYOUTS[d[1] as usize];
+        let enc = ENCS[d[2] as usize];
+        let m = make_model(&(vec![1, 2], vec![1, 3]), d[3]);
+        let s = sections(&m, enc, lay, lay, false);
+        let ctx = format!("{} layout {:?}: record iterators started at offset {} behind {} garbage bytes", enc.name(), lay, k, k);
+        let mut dig = Fnv::new();
+        let r = judge("SymbolVersionTable::new(displaced iterators)", &ctx, &m, via_new_at(&m, &s, enc, k), out, &mut dig);
+        if r > 0 {
+            out.nontrivial(dig.get() ^ idx);
+        }
+    }
+}
+
 pub fn build(tier: Tier) -> CheckDef {
     let (f, a, d) = tier.pick((3, 2, 2), (4, 3, 3));
     CheckDef {
@@ -513,7 +555,7 @@ pub fn build(tier: Tier) -> CheckDef {
         level: "model_checking",
         rule: "complete enumeration of small version models (every shape of needed files/aux and definitions/names up to the bound, index assignments, record layouts incl. non-contiguous and interleaved, separate string tables, section orders) built by the reference builder; every symbol index 0..n+2 is queried for its requirement and definition through three access paths and compared with the model's ground truth (file, name, hash, flags, ordered names, hidden bit). non-trivial = model for which at least one record is returned".into(),
         assumptions: vec!["record layouts are forward-linked (next/aux offsets are unsigned)".into()],
-        spaces: vec![Box::new(Models { maxf: f, maxa: a, maxd: d }), Box::new(Big), Box::new(VersymDomain), Box::new(Padded)],
+        spaces: vec![Box::new(Models { maxf: f, maxa: a, maxd: d }), Box::new(Big), Box::new(VersymDomain), Box::new(Padded), Box::new(Displaced)],
         abort_is_violation: false,
         hang_is_violation: true,
         exhaustive: true,
